@@ -113,7 +113,9 @@ func Allowed(state, ev string, c Ctx) map[string]bool {
 		case EvConnClosed:
 			return set(StActive, StIdle, state) // Event 18 → Active; Idle tolerated; not noticed yet → unchanged
 		case EvWaitShort, EvWaitHold:
-			return set(StIdle) // HoldTimer_Expires
+			// HoldTimer_Expires → Idle; the RFC only asks for "a large value" (4 minutes suggested) in
+			// OpenSent, so a machine that has not timed out yet is a behaviour of the model as well
+			return set(StIdle, state)
 		}
 	case StOpenConfirm:
 		switch ev {
